@@ -1,6 +1,6 @@
 // C13 (sub-claim): TimbukParser::ParseString on a text whose tail is symbolic: TAIL_K characters, each drawn from a small
-// alphabet that contains a representative of every character class the parser distinguishes (blank, newline, '(',
-// ')', ',', '-', '>', a letter that is a declared state/symbol, another letter).  The parser must either return or
+// alphabet that contains a representative of every character class the parser distinguishes (all six white-space
+// characters, '(', ')', ',', '-', '>', ':', a digit, letters that are declared state/symbol names, another letter).  The parser must either return or
 // throw std::runtime_error; every memory-safety / UB obligation of the engine applies to the parser code.  On success
 // the result must be well-formed: every transition has a non-empty symbol and a non-empty, blank-free right-hand side.
 #include <vata/parsing/timbuk_parser.hh>
@@ -12,30 +12,44 @@
 #ifndef HEAD_SEL
 #define HEAD_SEL 0
 #endif
-static const char ALPHA[8] = {' ', '\n', '(', ')', ',', '-', '>', 'q'};
-static const char* const HEADS[] = {
-  "Ops a f\nAutomaton A\nStates q\nFinal States q\nTransitions\n",   // tail is read in transition mode
-  "Ops a\nAutomaton A\nStates q\nFinal States q\nTransitions\na -> q\nf(q",   // tail continues a transition
-  "Ops a\nAutomaton A\nStates q\nFinal States ",                         // tail is read in header mode
+// 16 characters: every white-space character of the "C" locale, every punctuation character the format uses, a digit,
+// the declared names and an undeclared letter
+#ifndef ALPHA_N
+#define ALPHA_N 16
+#endif
+static const char ALPHA[16] = {' ', '\n', '(', ')', ',', '-', '>', 'q', '\t', '\r', '\f', '\v', ':', '1', 'a', 'x'};
+struct Frame_ { const char* head; const char* tail; };
+static const Frame_ FRAMES[] = {
+  {"Ops a f\nAutomaton A\nStates q\nFinal States q\nTransitions\n", ""},             // 0: the free part is read in transition mode
+  {"Ops a\nAutomaton A\nStates q\nFinal States q\nTransitions\na -> q\nf(q", ""},     // 1: ... continues a transition
+  {"Ops a\nAutomaton A\nStates q\nFinal States ", "\nTransitions\n"},                 // 2: ... is in the Final States line
+  {"Ops ", "\nAutomaton A\nStates q\nFinal States q\nTransitions\na -> q\n"},         // 3: ... is in the Ops line
+  {"Ops a\nAutomaton A\nStates ", "\nFinal States q\nTransitions\na -> q\n"},         // 4: ... is in the States line
+  {"Ops a\nAutomaton ", "\nStates q\nFinal States q\nTransitions\na -> q\n"},         // 5: ... is in the Automaton line
+  {"Ops a\nAutomaton A\nStates q\nFinal States q\nTransitions\na", "-> q\n"},         // 6: ... sits between the symbol of a rule and its arrow: a() a( ) a () ...
+  {"Ops a\nAutomaton A\nStates q\n", "Transitions\na -> q\n"},                        // 7: ... is a line of its own before the Transitions keyword
 };
 extern "C" void harness(void)
 {
-  unsigned idx[TAIL_K]; for (int i = 0; i < TAIL_K; ++i) idx[i] = vs_range(8);
-  std::string text(HEADS[HEAD_SEL]);
+  unsigned idx[TAIL_K]; for (int i = 0; i < TAIL_K; ++i) idx[i] = vs_range(ALPHA_N);
+  std::string text(FRAMES[HEAD_SEL].head);
   for (int i = 0; i < TAIL_K; ++i) text.push_back(ALPHA[idx[i]]);
-#if HEAD_SEL == 2
-  text += "\nTransitions\n";
-#endif
+  text += FRAMES[HEAD_SEL].tail;
   VATA::Parsing::TimbukParser parser;
   vs_allow_throw(1);
   VATA::Util::AutDescription d = parser.ParseString(text);
   vs_allow_throw(0);
   unsigned ntrans = 0; bool wellformed = true;
-  for (const auto& t : d.transitions) { ++ntrans; wellformed = wellformed && !t.second.empty() && !t.third.empty(); for (char c : t.third) wellformed = wellformed && c != ' ' && c != '\n'; }
+  bool oneEmptyChild = false;
+  for (const auto& t : d.transitions) { ++ntrans; wellformed = wellformed && !t.second.empty() && !t.third.empty(); for (char c : t.third) wellformed = wellformed && !(c == ' ' || (c >= '\t' && c <= '\r'));
+    if (t.first.size() == 1 && t.first[0].empty()) oneEmptyChild = true; }
 #ifdef VS_SELFTEST_1
   wellformed = wellformed && ntrans == 0;     // seeded wrong expectation: some tail yields a transition
 #endif
   CHECK(wellformed, 1);
+  // "nullary rules written with or without parentheses": a pair of parentheses that holds nothing but white space is the
+  // nullary notation; a successful parse never turns it into a unary rule over a state with the empty name
+  CHECK(!oneEmptyChild, 5);
 #ifdef VS_OBSERVE
   vs_observe(ntrans); vs_observe(d.states.size()); vs_observe(d.finalStates.size());
 #endif
